@@ -43,7 +43,15 @@ pub fn check_frame(addr: u16, ty: u8, data: &[u8], rep: &mut Report) {
 
     let r = catch(|| {
         let mut bad: Vec<(&'static str, String, String)> = vec![];
-        let owned = Frame::new(Address(addr), MsgType(ty), Data::try_new(data.to_vec()).expect("<=255 accepted"));
+        // owned buffers come exactly sized or reserved far larger than what they hold: capacity is not part of a frame
+        let cap = match (u64::from(addr) ^ u64::from(ty) ^ data.len() as u64) % 4 {
+            0 | 1 => data.len(),
+            2 => 2 * data.len() + 17,
+            _ => 600,
+        };
+        let mut buf = Vec::with_capacity(cap.max(data.len()));
+        buf.extend_from_slice(data);
+        let owned = Frame::new(Address(addr), MsgType(ty), Data::try_new(buf).expect("<=255 accepted"));
         let borrowed = Frame::new(Address(addr), MsgType(ty), Data::try_new(data).expect("<=255 accepted"));
         if owned != borrowed {
             bad.push(("owned_ne_borrowed", "equal frames".into(), "owned != borrowed".into()));
@@ -105,6 +113,10 @@ pub fn check_frame(addr: u16, ty: u8, data: &[u8], rep: &mut Report) {
             if f.address() != Address(addr) || f.message_type() != MsgType(ty) || f.data().as_ref() != data {
                 bad.push(("accessors", sig.clone(), format!("{:?}", f)));
             }
+            let taken = f.clone().into_data();
+            if taken.get().as_ref() != data {
+                bad.push(("accessors", sig.clone(), format!("into_data gives {:?} ({})", taken, label)));
+            }
         }
         // Decode what the *reference* encoder produced and what the library produced (identical if the
         // checks above passed) — both terminator variants.
@@ -113,6 +125,9 @@ pub fn check_frame(addr: u16, ty: u8, data: &[u8], rep: &mut Report) {
                 Ok(f) => {
                     if f != owned || f.address().0 != addr || f.message_type().0 != ty || f.data().as_ref() != data {
                         bad.push(("decode_differs", sig.clone(), format!("{:?} ({})", f, label)));
+                    }
+                    if f.clone().into_data().get().as_ref() != data {
+                        bad.push(("decode_differs", sig.clone(), format!("into_data of the decoded frame gives {:?} ({})", f.clone().into_data(), label)));
                     }
                     // equal frames hash alike, wherever they came from (a set of frames must not hold one frame twice)
                     use std::hash::{Hash, Hasher};
@@ -252,6 +267,56 @@ fn check_array_conversions(rep: &mut Report) {
     }
 }
 
+// ------------------------------------------------------------------------------------------------
+// Frames encoded and decoded while the thread is shutting down: an application that keeps its connection in a thread-local
+// and says goodbye from its destructor. Whichever of the application's and the library's own per-thread data (if it has
+// any) was created first, the farewell frame must encode and decode as ever.
+
+static FAREWELL: [std::sync::atomic::AtomicU8; 2] = [std::sync::atomic::AtomicU8::new(0), std::sync::atomic::AtomicU8::new(0)];
+
+struct Farewell(usize);
+
+impl Drop for Farewell {
+    fn drop(&mut self) {
+        let ok = std::panic::catch_unwind(|| {
+            let f = Frame::new(Address(0x007F), MsgType(2), Data::try_new(vec![0x55]).expect("1 byte"));
+            let w = f.to_bytes_with_newline();
+            w == refs::enc_crlf(0x007F, 2, &[0x55]) && matches!(Frame::from_bytes(&w), Ok(g) if g == f)
+        })
+        .unwrap_or(false);
+        FAREWELL[self.0].store(if ok { 1 } else { 2 }, std::sync::atomic::Ordering::SeqCst);
+    }
+}
+
+thread_local! {
+    static CONNECTION: std::cell::RefCell<Option<Farewell>> = const { std::cell::RefCell::new(None) };
+}
+
+fn check_frames_at_thread_exit(rep: &mut Report) {
+    for order in 0..2usize {
+        let t = std::thread::spawn(move || {
+            let traffic = || {
+                let f = Frame::new(Address(3), MsgType(2), Data::try_new(vec![0xFF]).expect("1 byte"));
+                let _ = Frame::from_bytes(&f.to_bytes());
+            };
+            if order == 0 {
+                CONNECTION.with(|c| *c.borrow_mut() = Some(Farewell(order))); // connection first, traffic afterwards
+                traffic();
+            } else {
+                traffic();
+                CONNECTION.with(|c| *c.borrow_mut() = Some(Farewell(order)));
+            }
+        });
+        let joined = t.join().is_ok();
+        let r = FAREWELL[order].load(std::sync::atomic::Ordering::SeqCst);
+        rep.case(Some(mix(0xFA2E, order as u64)));
+        rep.count("frames_encoded_at_thread_exit");
+        if !joined || r != 1 {
+            rep.violation(MON, "frame_codec_fails_at_thread_exit", &format!("thread-exit-{}", order), format!("a frame encoded and decoded from a thread-local destructor at thread exit ({}): {}", if order == 0 { "the application's thread-local was created before the thread's first frame" } else { "the thread's first frame came before the application's thread-local" }, match r { 0 => "the destructor did not run", 2 => "encoding / decoding panicked or gave a wrong result", _ => "the thread itself panicked" }), J::obj(vec![("workload", J::s("thread exit")), ("order", J::us(order))]));
+        }
+    }
+}
+
 fn fills(len: usize, rng: &mut util::Rng) -> Vec<Vec<u8>> {
     let mut v = vec![vec![0u8; len], vec![0xFFu8; len], (0..len).map(|i| i as u8).collect::<Vec<u8>>()];
     for _ in 0..4 {
@@ -356,6 +421,7 @@ pub fn run(ctx: &Ctx) -> Outcome {
                 check_try_new(n, rep);
             }
             check_array_conversions(rep);
+            check_frames_at_thread_exit(rep);
             // lengths around every multiple of 2^8 / 2^16 / 2^24 (and, thorough tier, 2^32): a length that is compared
             // after being narrowed passes exactly there
             let mut wraps: Vec<usize> = vec![];
@@ -406,6 +472,7 @@ pub fn run(ctx: &Ctx) -> Outcome {
         floor("single-byte value sweep ran", report.get("sweep_byte_values") == 256, report.get("sweep_byte_values")),
         floor("frames with the largest possible byte sums", report.get("largest_byte_sums") == 480 * 3, report.get("largest_byte_sums")),
         floor("Data::from(&[u8; N]) probed for N = 4, 5, 255, 256 (present for 4 on the pinned API)", report.get("array_conversions_probed") == 4 && report.get("array_conversions_present") >= 1, report.get("array_conversions_present")),
+        floor("frames encoded from a thread-local destructor at thread exit (both creation orders)", report.get("frames_encoded_at_thread_exit") == 2, report.get("frames_encoded_at_thread_exit")),
         floor("try_new lengths incl. > 255", report.get("try_new_over_255_tried") >= 47, report.get("try_new_over_255_tried")),
         floor("try_new lengths around the multiples of 2^8, 2^16, 2^24 (thorough: 2^32)", report.get("try_new_wrap_lengths_tried") >= 40, report.get("try_new_wrap_lengths_tried")),
         floor("frame with address >= 0x8000", report.get("frames_addr_ge_8000") > 0, report.get("frames_addr_ge_8000")),
